@@ -15,7 +15,7 @@ a list element `d[1]` is one token);
 `<comp>` = `ph ((name kind)*) ((mport kind)*) (<blk>*) ((<ref> <ref>)*) (<vc>*) (<vc>*) ((<mref> <mref> eq)*)
             ((<ref> <ref>)*) ((<ref> val)*)` = placeholder flag, sigs, mports, blks, uu, rdu, wru, mcs, conns, consts;
 `<blk>` = `(name kind (<ref>*) (<ref>*) (<ref>*))` kind 0 update / 1 update_ff / 2 update_once, reads writes calls;
-`<ref>` = `(<path> name)` relative to the component; `<vc>` = `(<ref> lt blk)`; `<mref>` = `(u blk)` | `(m <ref>)`.
+`<ref>` = `(<path> name)` relative to the component; `<vc>` = `(<ref> lt <ref>)` (variable, `<`?, block); `<mref>` = `(u <ref>)` | `(m <ref>)`.
 
 `<dump>` = `(<entry>*)`, rendered entries sorted, duplicates removed (the containers are sets; the
 owner tag of a constraint is not part of the observable), followed by the derived value nets and
@@ -48,12 +48,12 @@ def pair? : Sexp → Option (String × String)
   | .list [.atom a, .atom b] => some (a, b)
   | _ => none
 
-def vc? : Sexp → Option (Ref × Bool × String)
-  | .list [r, lt, .atom b] => do some (← ref? r, ← lt.bool?, b)
+def vc? : Sexp → Option (Ref × Bool × Ref)
+  | .list [r, lt, b] => do some (← ref? r, ← lt.bool?, ← ref? b)
   | _ => none
 
 def mref? : Sexp → Option LMRef
-  | .list [.atom "u", .atom b] => some (.blk b)
+  | .list [.atom "u", b] => do some (.blk (← ref? b))
   | .list [.atom "m", r] => do some (.meth (← ref? r))
   | _ => none
 
